@@ -515,7 +515,9 @@ func TestE2Faults(t *testing.T) {
 		case site.Phase == "split":
 			kinds = append(kinds, "bad-stage-defs")
 		case site.Phase == "join" || (site.Phase == "main" && !st.Split):
-			if len(st.Outs) > 0 {
+			if stats.Known("C06/dependent-map-call-disabled-after-restart") && feedsRunTimeMap(prog, identCall(site.Identity)) {
+				stats.Count("C06", "excluded_known:rejected-outputs-of-map-source", 1)
+			} else if len(st.Outs) > 0 {
 				kinds = append(kinds, "truncate-outs", "missing-key")
 			}
 		}
